@@ -544,7 +544,6 @@ Section Proofs.
       try (exists m; split; [reflexivity | split; assumption]).
     - eexists. split; [reflexivity|]. split; cbn.
       + rewrite Hs. cbn. rewrite app_nil_r.
-        apply (proj2 (List.Forall_forall _ _) (fun _ _ => Logic.I)) || idtac.
         induction (remove_nat j (m_live m)) as [|x t IH]; cbn; [reflexivity|].
         rewrite (UN x j), seqb_refl, andb_false_r. exact IH.
       + destruct Hc as [Hc|Hc]; [left; rewrite Hc; reflexivity | right; exact Hc].
